@@ -136,6 +136,23 @@ theorem c04_tp_exec_counterexample :
       Spec.tpX (tpWitnessX.take 4) = { q := false, et := 0 } := by
   decide
 
+/-- **The candidate fix restores the full statement.**  With the rising edge accepted only while no pulse
+is running (`if rising && !self.active` in `Tp::step` — `tpStepFixed`, not the code as it is) the block
+is the IEC non-retriggerable pulse on every trace and prefix, without any guard; and on the recorded
+witness it gives the IEC answer. -/
+theorem c04_tp_fixed_trace (tr : List TCall) (c : TCall) :
+    (tpStepFixed (tpRunFixed tr) c).2 = Spec.tp (tr ++ [c]) ∧
+      outputs tpStepFixed {} tpWitness = (prefixes tpWitness).map Spec.tp := by
+  refine ⟨?_, by decide⟩
+  have h := (tpStepFixed_spec (tpRunFixed tr) tr.reverse c (tpRunFixed_inv tr)).2
+  simpa [Spec.tp] using h
+
+/-- The same for the runtime route over the patched step. -/
+theorem c04_tp_fixed_exec_trace (tr : List XCall) (c : XCall) :
+    (execTpFixed (execTpRunFixed tr) c).2 = Spec.tpX (tr ++ [c]) := by
+  have h := (execTpFixed_spec (execTpRunFixed tr) tr.reverse c (execTpRunFixed_inv tr)).2
+  simpa [Spec.tpX] using h
+
 /-- The specification is non-retriggerable: while a pulse runs, the next output does not depend on IN. -/
 theorem c04_tp_spec_ignores_in (h : List TCall) (c : TCall) (b : Bool)
     (hr : (Spec.tpRunning h).isSome = true) :
